@@ -119,6 +119,10 @@ impl Inproc {
     pub fn bind_stdio(&self, sh: &mut Sh) {
         let outp = self.root.join("stdout");
         let errp = self.root.join("stderr");
+        // fresh inodes: a straggler of an earlier run (unwaited process substitution, background job) keeps
+        // writing to the unlinked old file instead of into this run's capture
+        let _ = std::fs::remove_file(&outp);
+        let _ = std::fs::remove_file(&errp);
         let fout = std::fs::File::create(&outp).expect("create stdout file");
         let ferr = std::fs::File::create(&errp).expect("create stderr file");
         let fin = std::fs::File::open("/dev/null").expect("open /dev/null");
